@@ -21,6 +21,14 @@ def optNatList (s : String) : List (Option Nat) :=
 /-- "a3" ↦ 3, "x2" ↦ 1002 (a key no sequencer registered) -/
 def actorTok (s : String) : Nat := if s.startsWith "x" then 1000 + idx! s else idx! s
 
+/-- the validator set `vals` (actor:power:signs,…) is the single-validator set (power 1) of actor `pd` -/
+def soleOf (vals pd : String) : Bool :=
+  match vals.splitOn "," with
+  | [v] => (match v.splitOn ":" with
+    | [a, p, _] => a == pd && p == "1"
+    | _ => false)
+  | _ => false
+
 def wrapOf : String → Wrap
   | "wrapped" => .wrapped
   | "nested" => .nested
@@ -47,7 +55,7 @@ def parseOp (d : DState) (f : List String) : Option Op :=
   | "lc_setcanon" :: c :: _ => some (.setCanonical (idx! c))
   | "lc_update" :: c :: _ =>
     some (.updateClient (idx! c) (wrapOf (kv f "w"))
-      ⟨kvN f "h", ⟨kvN f "root", kvN f "ts", kvN f "nv"⟩, actorTok (kv f "ps"), actorTok (kv f "pd"), kvN f "rev"⟩ (kv f "ibc" = "1"))
+      ⟨kvN f "h", ⟨kvN f "root", kvN f "ts", kvN f "nv"⟩, actorTok (kv f "ps"), actorTok (kv f "pd"), kvN f "rev", soleOf (kv f "vals") (kv f "pd")⟩ (kv f "ibc" = "1"))
   | "lc_misb" :: c :: _ => some (.misbehaviour (idx! c) (mkindOf (kv f "k")) (kv f "ibc" = "1"))
   | "lc_chaninit" :: c :: _ => some (.chanInit (idx! c))
   | "lc_chanack" :: ch :: _ => some (.chanAck (nat! (ch.drop 2).toString) (kv f "ibc" = "1"))
@@ -62,7 +70,7 @@ def parseOp (d : DState) (f : List String) : Option Op :=
 def lerrName : LErr → String
   | .notFound => "notFound" | .rollappNotFound => "rollappNotFound" | .alreadyExists => "alreadyExists" | .params => "params"
   | .paramsPanic => "paramsPanic" | .noState => "noState" | .noMatch => "noMatch" | .root => "root" | .ts => "ts" | .nextVal => "nextVal"
-  | .internal => "internal" | .proposerMismatch => "proposerMismatch" | .nonSequencer => "nonSequencer" | .unbonded => "unbonded"
+  | .internal => "internal" | .proposerMismatch => "proposerMismatch" | .nonSequencer => "nonSequencer" | .foreignSequencer => "foreignSequencer" | .validatorSet => "validatorSet" | .unbonded => "unbonded"
   | .revision => "revision" | .misbehaviourDisabled => "misbehaviourDisabled" | .nestedDisabled => "nestedDisabled"
   | .chanExists => "chanExists" | .chanUnknown => "chanUnknown" | .ibc => "ibc" | .noSigner => "noSigner" | .unbondBlocked => "unbondBlocked"
   | .forkNoClient => "forkNoClient" | .forkNoCons => "forkNoCons" | .resolveHeight => "resolveHeight" | .staleDesc => "staleDesc"
